@@ -109,6 +109,29 @@ pub fn probe_n(k: &str, n: u64) {
     }
 }
 
+/// A waker that, after waking the task, yields to the simulator: the woken task may run at once
+/// (as it could on another worker thread) while the waking code is still in the middle of what it
+/// was doing — e.g. between the wake-ups a `Drop` issues outside its critical section and the
+/// release of the fields that follows. Only used for the futures under test.
+pub struct YieldingWaker {
+    inner: std::task::Waker,
+}
+impl std::task::Wake for YieldingWaker {
+    fn wake(self: Arc<Self>) {
+        self.wake_by_ref()
+    }
+    fn wake_by_ref(self: &Arc<Self>) {
+        self.inner.wake_by_ref();
+        if IN_SHUTTLE.with(|c| c.get()) && !std::thread::panicking() {
+            probe("probe.yield_after_wake");
+            shuttle::thread::sleep(std::time::Duration::from_nanos(0));
+        }
+    }
+}
+pub fn yielding_waker(inner: &std::task::Waker) -> std::task::Waker {
+    std::task::Waker::from(Arc::new(YieldingWaker { inner: inner.clone() }))
+}
+
 pub fn violation(class: &str, text: String) -> ! {
     panic!("VIOLATION[{class}] {text}");
 }
